@@ -39,18 +39,25 @@ SHARD_TIMEOUT = {"quick": 900, "thorough": 3000}
 FORMS = [
     "import", "import-as", "import-multi", "from-submodule", "from-name", "from-star",
     "rel2-submodule", "rel2-name", "rel1-nomod", "rel1-subpkg-submodule", "rel1-name", "rel1-star",
+    # one statement importing a sub module AND a plain name of the same package: names both P.sub and P
+    "from-mixed", "from-mixed-rev", "rel1-mixed",
 ]
 PATHS_PER_PROJECT = 40
 
 
 class Alloc:
     def __init__(self):
-        self.n = {"t": 0, "s": 0, "u": 0}
+        self.n = {"t": 0, "s": 0, "u": 0, "m": 0, "q": 0}
         self.files = {}
 
     def new(self, fam):
         i = self.n[fam]
         self.n[fam] += 1
+        if fam in ("m", "q"):  # a package of its own with one sub module
+            d, mod = (f"mx{i}", f"proj.mx{i}") if fam == "m" else (f"pk/mq{i}", f"proj.pk.mq{i}")
+            self.files[f"{d}/__init__.py"] = "name = 1\n"
+            self.files[f"{d}/sub.py"] = "name = 1\n"
+            return mod
         rel, mod = {
             "t": (f"tg/t{i}.py", f"proj.tg.t{i}"),
             "s": (f"pk/s{i}.py", f"proj.pk.s{i}"),
@@ -98,6 +105,15 @@ def stmts_for(form, alloc):
     if form == "rel1-star":
         t = alloc.new("s")
         return f"from .{t.rsplit('.', 1)[1]} import *", [t]
+    if form == "from-mixed":
+        p = alloc.new("m")
+        return f"from {p} import sub, name", [p + ".sub", p]
+    if form == "from-mixed-rev":
+        p = alloc.new("m")
+        return f"from {p} import name, sub as s2", [p + ".sub", p]
+    if form == "rel1-mixed":
+        p = alloc.new("q")
+        return f"from .{p.rsplit('.', 1)[1]} import sub, name", [p + ".sub", p]
     raise ValueError(form)
 
 
